@@ -452,7 +452,9 @@ class Frame(object):
 class Machine(object):
     """Big-step evaluator.  `events` records facts the callers use to name clauses (e.g. a bare return was executed)."""
 
-    def __init__(self, world, max_steps=600, max_depth=10):
+    def __init__(self, world, max_steps=600, max_depth=10, max_calls=10 ** 9):
+        self.max_calls = max_calls
+        self.calls = 0
         self.w = world
         self.s = world.schema
         self.steps = 0
@@ -465,8 +467,13 @@ class Machine(object):
     def run_body(self, body, params=None, this=None, derived=None):
         """Execute the body of one action in a frame of its own; value of the executed return (None if none)."""
         self.depth += 1
+        self.calls += 1
         if self.depth > self.max_depth:
+            self.depth -= 1
             raise OutOfDomain('call depth')
+        if self.calls > self.max_calls:
+            self.depth -= 1
+            raise OutOfDomain('call budget')
         fr = Frame(params, this, derived)
         try:
             self.block(body, fr, new_block=False)
@@ -482,9 +489,10 @@ class Machine(object):
 
     def call(self, c, args, this=None):
         names = [n for n, _ in c.params]
+        args = dict(args)
         if sorted(names) != sorted(args):
             raise OutOfDomain('arguments do not match the signature')
-        return self.run_body(c.body, dict(args), this)
+        return self.run_body(c.body, args, this)
 
     # -- statements --------------------------------------------------------------------------------------------
     def tick(self):
@@ -710,10 +718,12 @@ class Machine(object):
         if t == 'enum':
             if e[1] not in self.s.enums or e[2] not in self.s.enums[e[1]]:
                 raise OutOfDomain('unknown enumerator')
+            self.events.add('enum-read')
             return self.s.enums[e[1]].index(e[2])
         if t == 'const':
             if e[1] not in self.s.consts:
                 raise OutOfDomain('unknown constant')
+            self.events.add('const-read')
             return self.s.consts[e[1]]
         if t == 'fcall':
             if e[1] not in self.s.functions:
